@@ -65,7 +65,10 @@ def main(argv):
             sys.stdout.flush()
     for d in todo:
         if d.startswith(tempfile.gettempdir()):
-            os.remove(d)
+            try:
+                os.remove(d)
+            except OSError:
+                pass
     missed = [r for r in results if r["status"] != "caught"]
     os.makedirs(os.path.join(ROOT, "out"), exist_ok=True)
     json.dump(results, open(os.path.join(ROOT, "out", "selftest.json"), "w"), indent=1)
